@@ -198,6 +198,9 @@ package staking
 // ASSUMED: the amount still owed is the caller's own object (every caller builds it with new(big.Int)): no withdraw record holds it as balance.
 //@ assume [owed-amount-is-callers-object] forall r: *state.WithdrawRecord :: { r.FinalBalance } r.FinalBalance != penaltyAmount
 //@ modifies all, c05Wd
+// Only PENDING withdrawals are part of what a penalty may take: a record that was already paid out (Finished != 0, kept in the
+// queue for the retention period) is never debited. (Typestate assert at the only place a record is saved as a slash result.)
+//@ assert before call (*WithdrawRecord).DeepCopy: [only-pending-withdrawals-are-debited] record.Finished == 0
 //@ ghost after call (*Int).Sub#2: c05Wd := c05Wd + big(a2)
 //@ loop #1 invariant [locals] big(totalPenalty) == 0 && big(penaltyAmount) == old(big(penaltyAmount)) && c05Wd == old(c05Wd) && big(selfPenalty) == entry(big(selfPenalty))
 //@ loop #1 invariant [no-shares] forall a: common.Address :: { in(a, dlgPenalty) } !in(a, dlgPenalty)
